@@ -112,6 +112,7 @@ class Obs(Base):
                 return [(s, None, self.pre_sleep, "stray") for s in ss]
             if trk.popped[0] == "L":
                 return [(s, trk.popped[1], self.pre_sleep, "reply") for s in ss]
+            self.job_enqueued_at = trk.popped[3] if len(trk.popped) > 3 else None
             return [(s, trk.popped[1], trk.popped[2], "job") for s in ss]
         if trk.processed is not None:
             return [(s, trk.processed, self.pre_sleep, "reply") for s in ss]
@@ -128,15 +129,29 @@ class C07Sleep(Obs):
     lose entries at that node's wake-up."""
     name = "c07"
 
+    def start(self, im):
+        super().start(im)
+        # The property's own notion of "has announced smart sleep" (independent of the flag the library keeps, which
+        # a defect may clear): node -> number of the op that processed its first wake-up announcement while it had
+        # at least one child.  A restart forgets it (transient state).
+        self.announced = {}
+
     def after(self, im, op, events, trk):
         if op[0] == "restart":
+            self.announced = {}
             return
+        self.job_enqueued_at = None
         for s, origin, ref, kind in self.sources(op, trk, events):
             n, typ = head(s)
             if n is None:
                 self.stats["sent:no-addressee"] += 1
                 continue
-            if n in ref:
+            at = self.announced.get(n)
+            ref_time = self.job_enqueued_at if kind == "job" else trk.opno
+            announced_before = at is not None and ref_time is not None and at < ref_time
+            if announced_before and n not in ref:
+                self.stats["sent:library-flag-says-awake-but-node-announced-smart-sleep"] += 1
+            if n in ref or announced_before:
                 if typ == STREAM:
                     self.stats["sent:stream-to-sleeping"] += 1
                 elif self.wake_node(origin) == n:
@@ -147,6 +162,8 @@ class C07Sleep(Obs):
             else:
                 self.stats["sent:to-awake-node" + ("/while-others-sleep" if ref else "")] += 1
         woke = self.wake_node(trk.processed) if trk.processed is not None else None
+        if woke is not None and woke not in self.announced and woke in self.pre and self.pre[woke][1]:
+            self.announced[woke] = trk.opno           # known node with >= 1 child (before this op) announced smart sleep
         for n, (new, lost) in self.queue_delta(im).items():
             if lost:
                 if woke == n:
